@@ -38,12 +38,62 @@ type World struct {
 
 	pool *PoolWorld // nil for store-only worlds
 
+	// values handed out by the store earlier, with what they said at that time
+	// (C10: a handed-out value is a snapshot that later operations never alter)
+	snaps []snapshot
+
 	resets int
 }
 
 // prodOptions: exactly what pool.go passes (badger.DefaultOptions); otherwise
 // synchronous writes are switched off to make the long sequential runs fast.
 var prodOptions = os.Getenv("VIP_BADGER_PROD") == "1"
+
+type snapshot struct {
+	bal  store.Balance
+	node *store.Node
+	was  string
+}
+
+func snapString(b *store.Balance, n *store.Node) string {
+	if b != nil {
+		return fmt.Sprintf("%s/%s/%s", b.Account, b.Credit.String(), b.Deposit.String())
+	}
+	return fmt.Sprintf("%+v", *n)
+}
+
+// keep remembers a handed-out value (bounded memory: the most recent 64).
+func (w *World) keep(b *store.Balance, n *store.Node) {
+	sn := snapshot{node: n}
+	if b != nil {
+		sn.bal = *b // the struct copy shares the big integers' digit arrays with whatever the store keeps
+		sn.was = snapString(&sn.bal, nil)
+	} else {
+		sn.was = snapString(nil, n)
+	}
+	w.snaps = append(w.snaps, sn)
+	if len(w.snaps) > 64 {
+		w.snaps = w.snaps[len(w.snaps)-64:]
+	}
+}
+
+// snapshotsIntact re-reads every remembered value.
+func (w *World) snapshotsIntact() bool {
+	ok := true
+	for i := range w.snaps {
+		sn := &w.snaps[i]
+		var now string
+		if sn.node != nil {
+			now = snapString(nil, sn.node)
+		} else {
+			now = snapString(&sn.bal, nil)
+		}
+		if now != sn.was {
+			ok = false
+		}
+	}
+	return ok
+}
 
 func openBadger(dir string) (store.Store, error) {
 	opts := badgerdb.DefaultOptions(dir)
@@ -121,6 +171,7 @@ func (w *World) reset(op J) error {
 		w.store = nil
 	}
 	w.resets++
+	w.snaps = nil
 	w.cfg = op
 	w.nodeNames = strs(op, "nodes")
 	w.acctNames = strs(op, "accts")
@@ -386,6 +437,7 @@ func (w *World) project() (J, error) {
 			return nil, err
 		} else {
 			nodes[name] = w.nodeRec(*n)
+			w.keep(nil, n)
 			ps, err := s.NodePeers(id)
 			if err != nil {
 				return nil, fmt.Errorf("NodePeers(%s): %v", name, err)
@@ -396,6 +448,7 @@ func (w *World) project() (J, error) {
 				return nil, fmt.Errorf("GetNodeBalance(%s): %v", name, err)
 			}
 			bal[name] = w.balRec(b)
+			w.keep(&b, nil)
 		}
 		for _, a := range w.acctNames {
 			if err := s.IsAccountNode(store.Account(w.names.wallet(a)), id); err == nil {
@@ -416,6 +469,7 @@ func (w *World) project() (J, error) {
 			return nil, err
 		}
 		acct[a] = w.balRec(b)
+		w.keep(&b, nil)
 		ids, err := s.GetAccountNodes(store.Account(w.names.wallet(a)))
 		if err != nil {
 			return nil, err
@@ -426,5 +480,6 @@ func (w *World) project() (J, error) {
 	if err != nil {
 		return nil, err
 	}
-	return J{"node": nodes, "peers": peers, "bal": bal, "link": link, "acct": acct, "anodes": anodes, "stats": w.statsRec(st)}, nil
+	return J{"node": nodes, "peers": peers, "bal": bal, "link": link, "acct": acct, "anodes": anodes, "stats": w.statsRec(st),
+		"snap": w.snapshotsIntact()}, nil
 }
